@@ -39,4 +39,4 @@ require (
 	google.golang.org/protobuf v1.36.6 // indirect
 )
 
-replace github.com/saucelabs/forwarder => /tmp/confirm-5614
+replace github.com/saucelabs/forwarder => /repo
